@@ -54,6 +54,8 @@ type Case struct {
 	Outlives bool `json:"outlives,omitempty"`
 	// StmtBg: the statements of the explicit transaction run with context.Background() (only BeginTx got the xid)
 	StmtBg bool `json:"stmt_bg,omitempty"`
+	// Server: the server profile of the process that ran the case (fixed per process; a replay adopts it)
+	Server string `json:"server,omitempty"`
 }
 
 // ---- identifiers -----------------------------------------------------------------------------
@@ -605,9 +607,13 @@ func TestMain(m *testing.M) {
 		// text may carry a build suffix
 		version = []string{"8.0.30", "5.7.30", "8.0.28-debug", "5.7.44-log"}[int(sh[len(sh)-1]-'0')%4]
 	}
+	if v := pt.ReplayCaseString("server"); v != "" {
+		version = v
+	}
 	if v := os.Getenv("C17_VERSION"); v != "" {
 		version = v
 	}
+	ctx.ProcessFields = map[string]string{"server": version}
 	env = atenv.Get(atenv.Options{XA: true, Version: version})
 	env.Srv.SetLockWait(200 * time.Millisecond)
 	ctx.Rec.SetRule("(1) identifiers: xids (ip:port:id shapes, printable tokens with '-' ':' '_' digits, up to 64 bytes) × branch ids (boundary-biased uint64): XaIdBuild(x,b).String()==x-b, accessors, byte-form round trip, distinct pairs ⇒ distinct identifiers. (2) scenarios: 1–3 statements (INSERT/UPDATE/DELETE/upsert/SELECT) through the XA proxy inside a global transaction, autocommit or explicit transaction, db or pinned Conn, business decision commit/rollback, phase two delivered by the coordinator to the process holding the connection or after clearing the resource's keeper map (a process that never saw phase one); server profiles by shard: 8.0.30 (prepared branches detach), 5.7.30, 8.0.28-debug and 5.7.44-log (version texts with a build suffix); fault enumeration: an error, and for every second position a dropped connection, injected at every XA command and business statement of the fault-free run, register refusal and transport error. Oracle: an automaton over the engine's XA command journal accepts only START·END·PREPARE·(COMMIT|ROLLBACK) / START·END·ROLLBACK prefixes per identifier with ≤1 finisher; the identifier equals <xid>-<branch id from the register reply>; the reply precedes XA START on the logical clock; every write happens inside an ACTIVE branch; failure before a successful PREPARE ⇒ caller error and no COMMIT; committed global ⇒ tables equal the plain driver's result, rolled-back global ⇒ tables unchanged; phase-two answers agree with what the database did; no branch left behind. Non-trivial: a scenario that reached PREPARE or had a fault at an XA command. Distinct by (mode, statement kinds, decision, target, server).")
@@ -661,7 +667,7 @@ func TestPropScenarios(t *testing.T) {
 			br.Stmts = append(br.Stmts, gen.DrawStmt(rt, tables, gen.StmtOptions{NoKeyAssignment: true, Kinds: []string{"insert", "update", "update", "delete", "upsert", "select"}}))
 		}
 		c := Case{Kind: "scenario", Tables: tables, Branch: br, Decision: rapid.SampledFrom([]string{"commit", "commit", "rollback"}).Draw(rt, "decision"),
-			Target: rapid.SampledFrom([]string{"holder", "holder", "fresh"}).Draw(rt, "target")}
+			Target: rapid.SampledFrom([]string{"holder", "holder", "fresh"}).Draw(rt, "target"), Server: version}
 		if br.Mode == "tx" && rapid.IntRange(0, 5).Draw(rt, "outlives") == 0 {
 			c.Outlives = true
 		}
